@@ -356,9 +356,9 @@ func (c *Ctx) GuardOpt(rule string, fn *ssa.Function, eff Effect, opt GuardOpts,
 	for _, gs := range guards {
 		g := parseGuard(gs)
 		lintGuard(fn, rule, g)
-		removed, descr := guardEdges(fn, g)
-		c.EdgesRemoved += len(removed)
-		limit := reachUnguarded(fn, removed, g.afters)
+		limit, nremoved, descr := reachThreaded(fn, g)
+		c.EdgesRemoved += nremoved
+		removed := make([]struct{}, nremoved)
 		var bad []string
 		for _, e := range effs {
 			b := e.Block()
